@@ -23,8 +23,10 @@ class SectionFile:
 
     def __init__(
         self,
-        data=SectionData(DefaultSection()),
+        data=None,
     ) -> None:
+        if data is None:
+            data = SectionData(DefaultSection(data=""))
         self.__data = data
         self.__storage = self.__class__.STORAGE
         self.__encoding = self.__class__.ENCODING
